@@ -171,7 +171,9 @@ fn main() {
     let verbose = args.contains_key("verbose");
     std::panic::set_hook(Box::new(move |info| {
         let msg = format!("{info}");
-        if verbose {
+        // a panic that cannot unwind aborts the process: the driver needs to see where it
+        // came from (library panics only; scenario stalls and harness panics are handled here)
+        if verbose || ((msg.contains("/quic/s2n-quic") || msg.contains("/dc/s2n-quic-dc") || msg.contains("/common/s2n-codec")) && !msg.contains("the runtime stalled")) {
             eprintln!("PANIC: {msg}");
         }
         *PANIC_MSG.lock().unwrap() = Some(msg);
